@@ -74,9 +74,18 @@ structure GoodKeys (g : StreamGroup) : Prop where
   /-- between polls the removal queue is empty -/
   q : g.roleQueue = []
 
+/-- every member is named by the key of its slab entry.  ADDED HYPOTHESIS (counterexample: FcProps/KTieGrpPollDS.lean,
+    `v0_false`; the statement as first written is kept there as `poll_tie_statement_v0`).  The slot annotation of
+    `childBegin` for a member that is handed the caller's own waker is, in the environment, `Rs.slotOf (.par _) c = c`
+    (Fc/RustEnv.lean: the member's own number), whereas the model logs the KEY (`World.pollChild c k`); without this
+    hypothesis the trace clause is false (member 200 under key 0: `childBegin 200 200 (par 1)` against
+    `childBegin 200 0 (par 1)`).  Everything else of the trace, and every other clause, is unaffected.  Preserved by the
+    poll (`poll_tie_inv`). -/
+def SlotNamed (g : StreamGroup) : Prop := ∀ k c, g.roleSlab.member k = some c → c = k
+
 def poll_tie_statement : Prop :=
   ∀ (g : StreamGroup) (b : Eng Grp) (w : Nat),
-    WfG g → GoodKeys g → StreamSteps b.w → b.s.stream = true → b.s.dead = false →
+    WfG g → GoodKeys g → SlotNamed g → StreamSteps b.w → b.s.stream = true → b.s.dead = false →
     ∃ g' env' ret,
       StreamGroup.poll_next_inner g w ((absS g b).w.emit (.pollBegin w)) = some (g', env', ret) ∧
       WfG g' ∧ GoodKeys g' ∧
